@@ -462,6 +462,17 @@ inline bool levels_S(Rng& r, uint64_t idx)
     sm[i].level = static_cast<quill::LogLevel>(r.below(9));
     w.sinks[i]->set_log_level_filter(sm[i].level);
   }
+  // one sink's write_log throws for some statements (static and dynamic ones): those statements are not demanded of any
+  // sink, but nothing they leave behind in the backend (reused buffer slots) may change the level or the routing of the
+  // statements after them
+  uint32_t const throw_mod = r.chance(1, 2) ? static_cast<uint32_t>(r.pick({3, 5, 9})) : 0;
+  auto throws_on = [throw_mod](uint32_t tid, uint32_t seq) { return throw_mod && mix(tid * 7919ull + 13, seq) % throw_mod == 0; };
+  if (throw_mod)
+    w.sinks[r.below(ns)]->throw_if = [throws_on](std::string_view m)
+    {
+      Parsed p = parse_msg(std::string{m});
+      return p.ok && throws_on(p.tid, p.seq);
+    };
   uint32_t const nl = static_cast<uint32_t>(r.range(1, 2));
   for (uint32_t l = 0; l < nl; ++l)
   {
@@ -483,7 +494,7 @@ inline bool levels_S(Rng& r, uint64_t idx)
   std::vector<quill::LogLevel> logger_level(nl, quill::LogLevel::TraceL3);
   uint32_t const steps = static_cast<uint32_t>(r.range(40, 250));
   bool ok = true;
-  uint64_t not_evaluated = 0, dyn = 0;
+  uint64_t not_evaluated = 0, dyn = 0, sink_throws = 0;
   for (uint32_t st = 0; st < steps && ok && !run.failed; ++st)
   {
     uint64_t x = r.below(100);
@@ -563,7 +574,9 @@ inline bool levels_S(Rng& r, uint64_t idx)
       for (auto const& f : sm[si].filters) if (!HFilter::accepts(f.first, f.second, is.level, is.tid, is.seq)) return false;
       return true;
     };
+    o.may_be_missing = [&](Issue const& is) { return throws_on(is.tid, is.seq); };
     ok = check_delivery(w, all, evs, o, "levels_S");
+    for (auto const& e : evs) if (e.kind == 'x') ++sink_throws;
     // level, description and per-sink pattern of what was written
     for (auto const& e : evs)
     {
@@ -596,6 +609,7 @@ inline bool levels_S(Rng& r, uint64_t idx)
   stat_add("levels_statements_enqueued", static_cast<long long>(exps.size()));
   stat_add("levels_statements_not_evaluated", static_cast<long long>(not_evaluated));
   stat_add("levels_dynamic_statements", static_cast<long long>(dyn));
+  stat_add("levels_sink_write_throws", static_cast<long long>(sink_throws));
   stat_sig("levels_sigs", std::to_string(run.sig_hash));
   w.teardown_loggers();
   return ok && !run.failed;
